@@ -1,6 +1,8 @@
 // C01: every functor handed to a ThreadPool runs exactly once, no later than ~ThreadPool returns.
 // Producer programs (external threads t0/t1, and `p` = a program run by a task on the pool):
 //   s  schedule(f)     q  schedule(f, ForceQueuingTag)     b<k>  scheduleBulk(k, gen)
+//   X  any one of s q b1 b2 b3, resolved by mc::choose before any thread exists: one run then explores a whole family
+//      of producer programs jointly with their schedules (far fewer processes than one run per program)
 // params: n pool size, mult poolLoadMultiplier, poll=1 setSignalingWake(false, 200us) before use.
 //
 // Path markers (mc::cover) are derived from *which thread* ran a functor:
@@ -101,6 +103,17 @@ void run_program(dispenso::ThreadPool& pool, Counters& c, int producer, const st
     }
   }
 }
+std::string expand(const std::string& prog) {
+  static const char* ops[] = {"s", "q", "b1", "b2", "b3"};
+  std::string out;
+  for (char ch : prog) {
+    if (ch == 'X')
+      out += ops[mc::choose(5)];
+    else if (ch != '-')
+      out += ch;
+  }
+  return out;
+}
 } // namespace
 
 MC_HARNESS(submit) {
@@ -108,18 +121,18 @@ MC_HARNESS(submit) {
   Counters c;
   c.t0_id = mc_self_id();
   c.harness_thread[0].set(c.t0_id + 1);
-  std::string t0 = P.s("t0", ""), t1 = P.s("t1", ""), inner = P.s("p", "");
+  std::string t0 = expand(P.s("t0", "")), t1 = expand(P.s("t1", "")), inner = expand(P.s("p", ""));
   // scheduleBulk from a pool thread enqueues without a producer token: see submit_stacknorm.h
-  submit_stacknorm::g_enabled = inner.find('b') != std::string::npos;
+  submit_stacknorm::g_enabled = P.s("p", "").find_first_of("bX") != std::string::npos;
   {
     dispenso::ThreadPool pool((size_t)n, (size_t)mult);
     if (P("poll", 0)) pool.setSignalingWake(false, std::chrono::microseconds(200));
-    if (!t1.empty() && t1 != "-")
+    if (!t1.empty())
       mc::spawn([&] {
         c.harness_thread[1].set(mc_self_id() + 1);
         run_program(pool, c, 1, t1);
       });
-    if (!inner.empty() && inner != "-") {
+    if (!inner.empty()) {
       int id = c.fresh(3, 1, kFq); // the launcher task itself
       pool.schedule(
           [&, id] {
